@@ -15,7 +15,11 @@ Definition out_eqb (a b : out) : bool :=
    the outputs observed on the real code, the number of Close calls the stream received *)
 Inductive case :=
 | CHist (cl : Z) (hdr : bool) (nilbody : bool) (cerr : option err) (steps : list rstep)
-        (ops : list op) (outs : list out) (closes : nat).
+        (ops : list op) (outs : list out) (closes : nat)
+(* two requests with their own scripted streams, the calls interleaved (each tagged with its request: false the
+   first, true the second), the outputs in the order of the calls, the Close calls each stream received *)
+| CPair (cA : cfg) (stepsA : list rstep) (cB : cfg) (stepsB : list rstep)
+        (ops : list op2) (outs : list out) (closesA closesB : nat).
 
 Definition check_case (x : case) : N :=
   match x with
@@ -24,4 +28,8 @@ Definition check_case (x : case) : N :=
     let '(mouts, s') := run c ops (init c steps) in
     verdict (list_eqb out_eqb mouts outs && Nat.eqb (s_closes s') closes)
             (no_panic outs && history_ok c steps ops outs closes)
+  | CPair cA stepsA cB stepsB ops outs closesA closesB =>
+    let '(mouts, (sA', sB')) := run2 cA cB ops (init cA stepsA) (init cB stepsB) in
+    verdict (list_eqb out_eqb mouts outs && Nat.eqb (s_closes sA') closesA && Nat.eqb (s_closes sB') closesB)
+            (no_panic outs && pair_ok cA stepsA cB stepsB ops outs closesA closesB)
   end.
